@@ -77,6 +77,10 @@ func valueFocusSchema() *schema.BodySchema {
 		"oo_ref": {IsOptional: true, Constraint: schema.OneOf{schema.Reference{OfScopeId: "variable"}, kw, schema.AnyExpression{OfType: cty.Bool}}},
 		"ref":    {IsOptional: true, Constraint: schema.Reference{OfScopeId: "variable"}},
 		"td":     {IsOptional: true, Constraint: schema.TypeDeclaration{}},
+		// the flags that only concern collection literals, on primitive types
+		"lt_bskip": {IsOptional: true, Constraint: schema.LiteralType{Type: cty.Bool, SkipComplexTypes: true}},
+		"a_bskip":  {IsOptional: true, Constraint: schema.AnyExpression{OfType: cty.Bool, SkipLiteralComplexTypes: true}},
+		"oo_bskip": {IsOptional: true, Constraint: schema.OneOf{schema.LiteralType{Type: cty.Bool, SkipComplexTypes: true}, kw}},
 		// string-typed attributes with a registered completion hook (at the top level and, through [inner], in a body
 		// the library derives by copying and merging)
 		"hk":  {IsOptional: true, Constraint: schema.LiteralType{Type: cty.String}, CompletionHooks: lang.CompletionHooks{{Name: "hook1"}}},
@@ -111,7 +115,7 @@ var valueFocusTexts = map[string][]string{
 }
 
 var valueFocusFamilies = map[string][]string{
-	"td": {"typedecl"}, "hk": {"scalar"}, "hka": {"scalar", "expr"},
+	"td": {"typedecl"}, "lt_bskip": {"scalar"}, "a_bskip": {"scalar"}, "oo_bskip": {"scalar"}, "hk": {"scalar"}, "hka": {"scalar", "expr"},
 	"kw": {"scalar"}, "l_kw": {"list", "scalar"}, "s_lt": {"list", "scalar"}, "l_none": {"list"}, "t_mix": {"tuple", "scalar"}, "m_num": {"map", "scalar"}, "m_ikw": {"map"},
 	"o_plain": {"object", "scalar"}, "o_interp": {"object"}, "o_nested": {"object"},
 	"a_str": {"expr", "scalar"}, "a_bool": {"expr", "scalar"}, "a_num": {"expr"}, "a_dyn": {"expr", "list", "object"}, "a_list": {"list", "expr"}, "a_set": {"list"},
